@@ -4,16 +4,20 @@
 (confirm_mutant.sh output).  Only mutants whose confirmation shows: demo passes on the clean tree,
 pre-existing unit+doc tests pass with the patch, demo fails with the patch, are kept."""
 import json, os, re, shutil, sys
-pid = sys.argv[1]
-base = f"/tmp/mut/{pid}"
+arg = sys.argv[1]            # "C02" or, for a later round of authors, "C02r2"
+m_ = re.match(r"(C\d\d)(?:r(\d))?$", arg)
+pid = m_.group(1)
+offset = 3 * (int(m_.group(2)) - 1) if m_.group(2) else 0
+base = f"/tmp/mut/{arg}"
 conf = {}
 for line in open(f"{base}/confirm.txt"):
     m = re.match(r"RESULT (\S+) (.*)", line)
     if m: conf[os.path.basename(m.group(1))] = m.group(2)
-for mk in sorted(os.listdir(f"{base}/out")):
-    d = f"{base}/out/{mk}"
+for mk0 in sorted(os.listdir(f"{base}/out")):
+    d = f"{base}/out/{mk0}"
+    mk = f"m{int(mk0[1:]) + offset}" if re.match(r"m\d+$", mk0) else mk0
     if not os.path.exists(f"{d}/patch.diff"): continue
-    c = conf.get(mk, "")
+    c = conf.get(mk0, "")
     res = re.findall(r"test result: (\w+)\. (\d+) passed; (\d+) failed", c)
     ok_clean = "clean-demo-rc=0" in c
     # res = [lib, demo, doc]
